@@ -17,7 +17,10 @@ RULE = ('spec trees of depth <= 3 (quick) / 4 (thorough) mixing tuple, Pipe, dic
         'sometimes inside, sometimes after, sometimes beside and sometimes outside the chain that binds its name; 40% of '
         'cases pass a caller scope= mapping binding pool names; Match dicts are applied to dict targets with 2-3 items, '
         'literal keys for a random subset of the items first and then a catch-all binding key (A.k / S(k=..) / Let) or '
-        'type key, the values reading the bound name (bare or under Coalesce(default=)); every call is made twice. Observed: result (hence what '
+        'type key, the values reading the bound name (bare or under Coalesce(default=)); 4% of the cases are Match dicts '
+        'with literal keys, a binding key and an Optional(k, default=D) whose default D reads the bound name (the value '
+        'D yields is compared with D evaluated in argument position at the Match\'s own scope under the lexical model); '
+        'every call is made twice. Observed: result (hence what '
         'every reader saw), ordered call log, the caller mapping before/after, equality of the two calls. non-trivial = '
         'at least one binder and one reader; distinct = distinct (target, spec, scope)')
 TRUSTED = ['Python primitives are parameters (`Prims`), validated by the correspondence only']
@@ -130,11 +133,80 @@ def placements():
             yield {'spec': sh, 'target': {'i': 4}, 'scope': scope}
 
 
+def gen_optdefault(rng):
+    """Match({lit: T.., <binding key>: T, Optional(k, default=D): T}) on a dict target without k: the default
+    is evaluated (through arg_val) in the Match dict's own scope -- what the keys of the items matched before
+    bound is not visible to it.  D reads the name the binding key binds (bare, under Coalesce, inside a
+    container)."""
+    name = rng.choice(Gen.POOL)
+    keys = rng.sample(['a', 'b', 'c', 'd'], rng.randint(1, 3))
+    target = {k: rng.choice([0, 1, 'tv', None]) for k in keys}
+    q = rng.random()
+    if q < 0.5:
+        binder = {'k': 'aBind', 'name': name}
+    elif q < 0.8:
+        binder = {'k': 'sBind', 'bs': [[name, rng.choice([{'k': 'lit', 'v': ic.enc('kb')}, {'k': 't', 'steps': []}])]]}
+    else:
+        binder = {'k': 'let', 'bs': [[name, {'k': 't', 'steps': []}]]}
+    rd = {'k': 'sRead', 'name': name if rng.random() < 0.85 else rng.choice(Gen.POOL), 'steps': [], 'item': rng.random() < 0.4}
+    q = rng.random()
+    if q < 0.35:
+        d = rd
+    elif q < 0.7:
+        d = {'k': 'coalesce', 'subs': [rd], 'dflt': {'k': 'lit', 'v': ic.enc('unbound')}, 'dflt_factory': None,
+             'skip': None, 'skip_exc': ['GlomError']}
+    elif q < 0.85:
+        d = {'k': 'list', 'xs': [{'k': 'lit', 'v': ic.enc(1)}, {'k': 'coalesce', 'subs': [rd], 'dflt': {'k': 'lit', 'v': None},
+                                                                'dflt_factory': None, 'skip': None, 'skip_exc': ['GlomError']}]}
+    else:
+        d = {'k': 'sGlobRead', 'name': name}
+    scope = []
+    if rng.random() < 0.5:
+        for nm in rng.sample(Gen.POOL, rng.randint(1, 2)):
+            scope.append([nm, ic.enc(rng.choice([1, 'cs', None]))])
+    return {'kind': 'optdefault', 'target': ic.enc(target), 'lits': [k for k in keys if rng.random() < 0.3],
+            'binder': binder, 'dflt': d, 'optkey': 'zq', 'scope': scope}
+
+
+def run_optdefault(case):
+    import glom
+    from glom import T
+    fns = {}
+    spec = {}
+    for k in case['lits']:
+        spec[k] = T
+    spec[ic.build(case['binder'], fns)] = T
+    spec[glom.Optional(case['optkey'], default=ic.build(case['dflt'], fns))] = T
+    m = glom.Match(spec)
+    obs = []
+    for _ in range(2):                       # the same spec object, two top-level calls
+        target = ic.dec(case['target'], fns)
+        kw = {'scope': {n: ic.dec(v, fns) for n, v in case['scope']}} if case['scope'] else {}
+        try:
+            res = glom.glom(target, m, **kw)
+        except Exception as e:
+            o = {'err': ic.exc_name(e)}
+        else:
+            try:
+                o = {'ok': ic.enc(res[case['optkey']])} if case['optkey'] in res else {'err': 'NoDefault'}
+            except ValueError as ve:
+                o = {'err': 'Unencodable:' + str(ve)[:80]}
+        obs.append(o)
+        del ic.LOG[:]
+    out = dict(case)
+    out['impl'] = obs[0]
+    out['impl_repeat_same'] = obs[0] == obs[1]
+    return out
+
+
 def generate(rng, tier, scale, **focus):
     if not focus:
         yield from placements()
     n = (1500 if tier == 'quick' else 30000) * scale
     for i in range(n):
+        if rng.random() < 0.04:
+            yield gen_optdefault(rng)
+            continue
         g = Gen(rng, {'extra': ['bindchain', 'bindchain', 'bindchain', 'reader', 'reader', 'binder', 'and', 'not',
                                 'switch', 'matchdict', 'ref'], 'scope': True})
         t = g.target()
@@ -166,6 +238,8 @@ def corpus():
 
 def run_impl(case):
     base = {k: v for k, v in case.items() if not k.startswith('impl')}
+    if base.get('kind') == 'optdefault':
+        return run_optdefault(base)
     first = ic.run_glom(base)
     built = first.pop('_built')
     second = ic.run_glom(base, built=built)     # the same spec object, a second top-level call
@@ -174,13 +248,37 @@ def run_impl(case):
     return first
 
 
-key = _c03.key
-shrink = _c03.shrink
+def key(case):
+    if case.get('kind') == 'optdefault':
+        return {k: case[k] for k in ('kind', 'target', 'lits', 'binder', 'dflt', 'optkey', 'scope')}
+    return _c03.key(case)
+
+
+def shrink(case):
+    if case.get('kind') == 'optdefault':
+        base = {k: v for k, v in case.items() if not k.startswith('impl')}
+        if base['lits']:
+            c = dict(base); c['lits'] = []
+            yield c
+        if base['scope']:
+            c = dict(base); c['scope'] = []
+            yield c
+        items = base['target'].get('d', [])
+        for i in range(len(items)):
+            if len(items) > 1:
+                c = dict(base); c['target'] = {'d': items[:i] + items[i + 1:]}
+                c['lits'] = [k for k in base['lits'] if any(e[0] == {'s': k} for e in c['target']['d'])]
+                yield c
+        return
+    yield from _c03.shrink(case)
+
 
 BINDERS = ('sBind', 'aBind', 'aGlob', 'aVar', 'let', 'specW', 'ref', 'vars')
 READERS = ('sRead', 'sGlobRead', 'sVarRead')
 
 
 def nontrivial(case, verdict):
+    if case.get('kind') == 'optdefault':
+        return True
     s = json.dumps(case['spec'])
     return any(('"k": "%s"' % b) in s for b in BINDERS) and any(('"k": "%s"' % r) in s for r in READERS)
